@@ -325,6 +325,9 @@ package rel
 //@   loop 2 invariant bnd: 0 <= $idx && $idx <= len(p.patterns)
 //@   loop 2 invariant dom2: forall k: Int :: has(extraElements, k) ==> 0 <= k && k < $idx
 //@   loop 2 invariant noex2: len(extraElements) >= 0 && (len(p.patterns) == 1 && structKind(p.patterns[0]) ==> len(extraElements) == 0)
+// A free name ({1, x} = ...) is bound to the ONE member left after the literals were removed; binding "some" member of
+// several would make the result depend on the enumeration order (C07). Checked at the end of every iteration that binds it.
+//@   loop 0 ensures[C07,C09] onefree: let j : i in (prev(p.patterns[j] is rel.ExtraElementPattern) || scard(set) == 1)
 
 //@ func (LiteralExpr).Literal(e)
 //@   tags C10
